@@ -111,12 +111,16 @@ def run(ctx):
         except tr_common.ExtractionError as e2:
             extraction_failed = str(e2)
     ctx.coverage["translator"] = {k: v for k, v in report.items() if k != "modules"}
-    pr = core.prove("C12")
+    pr = core.prove("C12", extra_modules=["MC.Props.C12Sep"])
     core.proof_coverage(ctx, pr, "lake build MC.Props.C12 && lake env lean build/audit_C12.lean (#print axioms)",
                         ["modelled, not verified: set_preference/get_preference/set_string_pref/is_boolean_pref/set_separators/pref_to_string transcribed by hand (MC.Model.Prefs); "
                          "default maps, float names, flattened Rules/prefs.yaml and USE_DECIMAL_SEPARATOR regenerated from the source",
                          "environment parameters of the model: filesOk (rule-file lookup succeeds; C15) and normFloat (Rust f64 parse/print)",
-                         "assumption: no non-ASCII character lower-cases (Rust to_lowercase) into a letter of 'true'/'false'"])
+                         "assumption: no non-ASCII character lower-cases (Rust to_lowercase) into a letter of 'true'/'false'",
+                         "separators_follow_preferences / separators_route_independent (MC/Props/C12Sep.lean): after EVERY history of set_preference requests (accepted or rejected, any order, through "
+                         "Language or through Language=Auto + LanguageAuto) that does not write DecimalSeparators / BlockSeparators directly, these two are exactly deriveSeparators(language in force, "
+                         "DecimalSeparator) whenever DecimalSeparator is Auto, ',' or '.'; two histories ending in the same three preferences end in the same separators. The invariant was false of "
+                         "the library before e46c52d (the route battery of this check shows it on the implementation)"])
     core.need_harness(ctx)
     core.need_driver(ctx)
     im, mo = core.impl(), core.model()
